@@ -22,6 +22,7 @@ var generators = map[string]genFn{
 	"takeover":        genTakeover,
 	"vacancy":         genVacancy,
 	"roundend":        genRoundEnd,
+	"slowsink":        genSlowSink,
 	"takeoverstop":    genTakeoverStop,
 	"stoptimeout":     genStopTimeout,
 	"spin":            genSpin,
@@ -193,7 +194,9 @@ func runScenarioMode(t *testing.T, mode string, rep *Report, rng *rand.Rand, n i
 			seed := mix(rep.Seed, int64(k), 99)
 			sc := g(rand.New(rand.NewSource(seed)), seed)
 			sc.Name = fmt.Sprintf("%s#%d", sc.Name, k)
-			if mix(seed, 9931)%5 == 0 || strings.HasPrefix(sc.Name, "roundend#") {
+			if sc.SlowAll > 0 {
+				// (its own kind of sink)
+			} else if mix(seed, 9931)%5 == 0 || strings.HasPrefix(sc.Name, "roundend#") {
 				sc.SlowLog = time.Duration(2+mix(seed, 9932)%20) * time.Millisecond // a fifth of the scenarios: warnings and errors take a few milliseconds to write
 				if strings.HasPrefix(sc.Name, "roundend#") {
 					sc.SlowLog = time.Duration(40+mix(seed, 9932)%80) * time.Millisecond // (a sink that stalls)
